@@ -38,7 +38,7 @@ REQUIRED_PROBES = ("transport_calls", "cache_hit_after_success", "op_with_transp
                    "refetch_without_cache_remote", "metaschema_ref_resolved", "store_doc_resolved")
 
 OPS = ["is_valid", "exhaust", "validate", "take_close", "take_drop", "resolve", "resolving", "resolve_from_url",
-       "resolving", "in_scope", "is_valid", "resolve", "resolve_remote", "resolve_fragment"]
+       "resolving", "in_scope", "is_valid", "resolve", "resolve_remote", "resolve_fragment", "set_handler"]
 KINDS = ["lru", "pass", "tiny"]
 
 
@@ -54,6 +54,10 @@ def generate(rng, tier="quick"):
                         ndefs=rng.randint(2, 8))
     fault_rate = rng.choice([0.0, 0.3, 0.5, 0.8])
     base = gen_cfg(rng, world, fault_rate)
+    for f in base["faults"].values():
+        # a handler that returns text makes the document depend on the ROUTE it arrives by (urlopen always parses);
+        # with handlers that come and go in the middle of a history a cache would then legitimately change outcomes
+        f.pop("returns", None)
     tiny = rng.choice(["lru1", "lru2"])
     matrix = [(cr, uj, rc) for cr in (True, False) for uj in KINDS for rc in KINDS]
     fixed = [(True, "lru", "lru"), (False, "pass", "pass"), (False, "lru", "lru")]
@@ -98,6 +102,10 @@ def generate(rng, tier="quick"):
                 op["k"] = rng.choice([0, 1, 1, 2, 3])
         elif kind == "resolve_from_url":
             op["ref"] = rng.choice(absolute)
+        elif kind == "set_handler":
+            # resolver.handlers is a public, mutable mapping: the user registers, replaces or removes a handler later
+            op["scheme"] = rng.choice(["http", "https", "sim", "urn"])
+            op["action"] = rng.choice(["add", "add", "replace", "del"])
         elif kind == "resolve_remote":
             # the fetch primitive called directly: only documents that are legitimately remote
             remote = [u for u in sorted(world["docs"]) if u not in world.get("store_docs", ())]
@@ -150,7 +158,18 @@ def execute(scn):
         for ci, a in enumerate(actors):
             cfg = scn["configs"][ci]
             n0 = len(a.transport.log)
-            out = do_op(a, op, instances)
+            if op["op"] == "set_handler":
+                h = a.resolver.handlers
+                if op["action"] == "del":
+                    h.pop(op["scheme"], None)
+                elif op["action"] == "replace" and op["scheme"] in h:
+                    h[op["scheme"]] = a.transport.handler_alt
+                else:
+                    h[op["scheme"]] = a.transport.handler
+                probe("handlers_mapping_changed_later")
+                out = {"k": "none"}
+            else:
+                out = do_op(a, op, instances)
             out.pop("_instance_mutated", None)
             steps += 1 + len(out.get("errs", ()))
             window = a.transport.log[n0:]
@@ -168,6 +187,15 @@ def execute(scn):
             elif exc and exc.get("rre") and "dsim:" in exc.get("msg", ""):
                 violations.append({"oracle": "stale-failure-reported", "where": i, "config": ci, "op": op["op"],
                                    "detail": {"outcome": out, "window": window[:3]}})
+            # -- the route each retrieval took is the one the resolver's handlers mapping names NOW
+            for w in window:
+                from urllib.parse import urlsplit
+                hs = a.resolver.handlers.get(urlsplit(w[1]).scheme)
+                want = "handler" if hs == a.transport.handler else "handler2" if hs == a.transport.handler_alt else None
+                if (want is None and w[0] in ("handler", "handler2")) or (want is not None and w[0] != want):
+                    violations.append({"oracle": "retrieval-not-through-the-registered-handler", "where": i, "config": ci,
+                                       "op": op["op"], "detail": {"url": w[1], "route": w[0], "registered": want}})
+                    break
             # -- frugality
             for j, w in enumerate(window):
                 u = w[1]
